@@ -171,10 +171,12 @@ def globalAllowed (g : Global) : Bool :=
 
 open Xmp.Gen.Globals in
 /-- **Global whitelist** over the list generated from the object files on every run: a new writable
-global, or a new writer of an existing one, breaks this. -/
+global, or a new writer of an existing one, breaks this; as long as a lazy table exists its fill must
+have the modelled shape (guarded by slot 0 / unconditional 256×8 CRC loop over a non-empty constant list). -/
 theorem C06_globals_whitelisted :
-    writableGlobals.all globalAllowed = true ∧ farrayFillGuarded = true ∧ crcInitShapeOk = true
-    ∧ formatLoaders ≠ [] := by decide
+    writableGlobals.all globalAllowed = true
+    ∧ (writableGlobals.any (fun g => g.name == "_farray") = true → farrayFillGuarded = true ∧ formatLoaders ≠ [])
+    ∧ (writableGlobals.any (fun g => g.name == "crc_table") = true → crcInitShapeOk = true) := by decide
 
 /-- both fills are idempotent: re-running them (from any context, in any sequential order) changes nothing -/
 theorem C06_idempotent_fill (poly : Nat) (g : Nat → Nat) (names : List String) (a : List (Option String))
